@@ -490,6 +490,30 @@ theorem rounded_sim3Exp (eps γq γs γt γM γMt : ℝ) (h0 : 0 ≤ eps) (h1 : 
   have : γM * |Y.s| ≤ γM * (Real.exp x.sigma * (1 + γs)) := mul_le_mul_of_nonneg_left hYs hM0
   nlinarith
 
+/-- **the property's translation clause for the float result** (pass 11): with the measured per-call accuracies `γt` (stored
+translation against the model's) and `γMt` (translation column of the stored matrix against the exact matrix of the stored element),
+for `eps ≤ 2⁻²³` and `|σ| ≤ 8` the translation column of the stored matrix is within `γMt + γt + 4·√eps·C(σ)‖τ‖∞` of that of
+`exp(ξ^)` — every input, every regime, any rotation angle -/
+theorem rounded_sim3Exp_translation (eps γq γs γt γM γMt : ℝ) (x : sim3 ℝ) (h0 : 0 ≤ eps) (he : eps ≤ 1 / 2 ^ 23)
+    (hσ : |x.sigma| ≤ 8) (hq1 : γq ≤ 1) (hs0 : 0 ≤ γs) (Y : Sim3 ℝ) (M : Matrix (Fin 4) (Fin 4) ℝ)
+    (hq : QuatNear γq Y.q (so3Exp eps x.phi) ∨ QuatNear γq Y.q (so3Exp eps x.phi).neg)
+    (hs : |Y.s - Real.exp x.sigma| ≤ γs * Real.exp x.sigma)
+    (ht : ∀ i, |Y.t.toFun i - (sim3Exp eps x).t.toFun i| ≤ γt)
+    (hM : Blocks4Within M (Sim3matrix Y).toMatrix4 (γM * |Y.s|) γMt) (a : Fin 3) :
+    |M a.castSucc (Fin.last 3) - NormedSpace.exp (sim3Gen x) a.castSucc (Fin.last 3)|
+      ≤ γMt + γt + 4 * Real.sqrt eps * sim3TransScale x := by
+  have h1 : eps ≤ 1 := le_trans he (by norm_num)
+  have a1 := hM.2.1 a
+  have a2 := (rounded_sim3_blocks eps γq γs γt h0 h1 hq1 hs0 x Y hq hs ht).2.1 a
+  have a3 := sim3Exp_translation_sqrt_eps eps x h0 he hσ a
+  have e : M a.castSucc (Fin.last 3) - NormedSpace.exp (sim3Gen x) a.castSucc (Fin.last 3)
+      = (M a.castSucc (Fin.last 3) - (Sim3matrix Y).toMatrix4 a.castSucc (Fin.last 3))
+        + ((Sim3matrix Y).toMatrix4 a.castSucc (Fin.last 3) - (Sim3matrix (sim3Exp eps x)).toMatrix4 a.castSucc (Fin.last 3))
+        + ((Sim3matrix (sim3Exp eps x)).toMatrix4 a.castSucc (Fin.last 3) - NormedSpace.exp (sim3Gen x) a.castSucc (Fin.last 3)) := by
+    ring
+  rw [e]
+  exact le_trans (abs_add_three _ _ _) (by linarith)
+
 /-- **se3 in rounded arithmetic, block-wise** (pass 7): stored rotation within `γq` (componentwise, up to the overall sign), stored
 translation within `γt`, stored matrix within (`γM`, `γMt`, bottom row equal) of the exact matrix of the stored element ⟹ rotation
 block within `γM + 16γq + eps⁴/8`, translation column within `γMt + γt + (eps³/8)‖τ‖₁`, bottom row exact — for every input -/
@@ -725,6 +749,16 @@ example (a : Fin 3) :
 
 example : |Real.sqrt (so3Exp eps64 x0).normSq - 1| ≤ 16 * 0 + eps64 ^ 6 :=
   rounded_so3Exp_norm eps64 0 eps64_pos.le eps64_le_one (by norm_num) x0 (so3Exp eps64 x0) (Or.inl ⟨by simp, by simp, by simp, by simp⟩)
+
+-- pass 11: exact storage (all γ = 0) satisfies the hypotheses of `rounded_sim3Exp_translation`
+example (a : Fin 3) :
+    |(Sim3matrix (sim3Exp eps64 ⟨⟨1, 2, 3⟩, x0, 7 / 10⟩)).toMatrix4 a.castSucc (Fin.last 3)
+        - NormedSpace.exp (sim3Gen ⟨⟨1, 2, 3⟩, x0, 7 / 10⟩) a.castSucc (Fin.last 3)|
+      ≤ 0 + 0 + 4 * Real.sqrt eps64 * sim3TransScale ⟨⟨1, 2, 3⟩, x0, 7 / 10⟩ :=
+  rounded_sim3Exp_translation eps64 0 0 0 0 0 ⟨⟨1, 2, 3⟩, x0, 7 / 10⟩ eps64_pos.le (by unfold eps64; norm_num)
+    (by rw [abs_of_pos (by norm_num)]; norm_num) (by norm_num) le_rfl (sim3Exp eps64 ⟨⟨1, 2, 3⟩, x0, 7 / 10⟩) _
+    (Or.inl ⟨by simp [sim3Exp, rxso3Exp], by simp [sim3Exp, rxso3Exp], by simp [sim3Exp, rxso3Exp], by simp [sim3Exp, rxso3Exp]⟩)
+    (by simp [sim3Exp, rxso3Exp]) (fun i => by simp) ⟨fun a b => by simp, fun a => by simp, fun j => rfl⟩ a
 
 end
 end PP
